@@ -386,7 +386,43 @@ func genKeep(r *vh.Rand) string {
 	return strings.Join(p, " ")
 }
 
+// genLong: a long history on one compression context: 6-11 header-bearing frames whose header sets overlap (the
+// deflate back-references of a frame point into the text of the frames before it), some of them refused in between
+func genLong(r *vh.Rand) string {
+	pool := genEntries(r)
+	for len(pool) < 3 {
+		pool = append(pool, genEntries(r)...)
+	}
+	p := []string{"rt"}
+	for i, n := 0, r.Range(6, 11); i < n; i++ {
+		es := []entry{}
+		seen := map[string]bool{}
+		for _, e := range pool {
+			if r.Chance(2, 3) && !seen[strings.ToLower(e.name)] {
+				seen[strings.ToLower(e.name)] = true
+				es = append(es, e)
+			}
+		}
+		sid := uint32(r.Range(1, 9))
+		if r.Chance(1, 8) {
+			sid = 0x80000000 // read back as stream id 0: a per-frame error in the middle of the history
+		}
+		switch r.Intn(4) {
+		case 0:
+			p = append(p, fmt.Sprintf("S:%d:0:%d:0:%d:%s", sid, r.Intn(8), r.Intn(2), hdrField(es)))
+		case 1:
+			p = append(p, fmt.Sprintf("H:%d:0:%s", sid, hdrField(es)))
+		default:
+			p = append(p, fmt.Sprintf("R:%d:%d:%s", sid, r.Intn(2), hdrField(es)))
+		}
+	}
+	return strings.Join(p, " ")
+}
+
 func gen(r *vh.Rand) string {
+	if r.Chance(1, 14) {
+		return genLong(r)
+	}
 	if r.Chance(1, 10) {
 		return genKeep(r)
 	}
@@ -415,6 +451,23 @@ func gen(r *vh.Rand) string {
 }
 
 func pre(emit func(string), thorough bool) {
+	// counts exactly at and just above the readers' limits (1024 settings / 1024 headers)
+	if thorough {
+		for _, n := range []int{1023, 1024, 1025} {
+			fixed := be32(uint32(n))
+			for i := 0; i < n; i++ {
+				fixed = append(fixed, be32(uint32(i%8+1))...)
+				fixed = append(fixed, be32(uint32(i))...)
+			}
+			emit(fmt.Sprintf("st c:3:4:0:+0:%s:_ c:3:6:0:+0:00000001:_", vh.Hex(fixed)))
+			blk := be32(uint32(n))
+			for i := 0; i < n; i++ {
+				name := fmt.Sprintf("x-%d", i)
+				blk = append(append(append(blk, be32(uint32(len(name)))...), name...), be32(0)...)
+			}
+			emit(fmt.Sprintf("st c:3:2:0:+0:00000001:%s c:3:6:0:+0:00000001:_", vh.Hex(blk)))
+		}
+	}
 	// every single non-ASCII token as a header name, alone and embedded
 	for _, t := range nonASCII {
 		for _, n := range []string{t, "x" + t, t + "y", "x" + t + "y" + t} {
